@@ -542,7 +542,7 @@ def _chain():
 def _ml():
     def gen(rng):
         c = repl_cfg(rng)
-        c.update(resolver=rng.choice(["lww", "vc"]), ae=rng.choice([0.0, 0.05, 0.3, 1.01]))
+        c.update(resolver=rng.choice(["lww", "vc"]), ae=rng.choice([0.0, 0.05, 0.3, 1.01]), manual_tick=rng.random() < 0.5)
         return c
 
     def build(z, c):
@@ -558,6 +558,12 @@ def _ml():
         for nd in nodes:
             nd.add_peers([x for x in nodes if x is not nd])
             z.after_init(lambda nd=nd: nd.get_anti_entropy_event())
+        if c.get("manual_tick") and c["arr"]:
+            # anti_entropy_interval: "0 to disable"; a one-off round triggered by hand
+            z.at(c["arr"][len(c["arr"]) // 2][0], nodes[0], "AntiEntropy", {"metadata": {}}, daemon=True)
+            z.probe("probe.manual_tick")
+            if c["ae"] == 0:
+                z.detail = "anti-entropy-disabled"
         repl_feed(z, c, nodes, lambda i, kind: nodes[i % n])
     return gen, build
 
@@ -566,7 +572,8 @@ def _ml():
 def _crdt():
     def gen(rng):
         c = repl_cfg(rng)
-        c.update(kind=rng.choice(["g", "pn", "orset"]), gi=rng.choice([0.05, 0.3, 1.01]))
+        # gossip_interval: "0 to disable"; a user may still trigger a one-off round by sending a GossipTick
+        c.update(kind=rng.choice(["g", "pn", "orset"]), gi=rng.choice([0.0, 0.05, 0.3, 1.01]), manual_tick=rng.random() < 0.5)
         return c
 
     def build(z, c):
@@ -578,7 +585,7 @@ def _crdt():
         names = [f"crdt{i}" for i in range(n)]
         net, nodes, _ = mesh(z, names, c["net"],
                              lambda nm, net: CRDTStore(nm, net, crdt_factory=lambda node_id: fac(node_id),
-                                                       gossip_interval=check_num(c["gi"], 1e-4)))
+                                                       gossip_interval=check_num(c["gi"])))
         for nd in nodes:
             nd.add_peers([x for x in nodes if x is not nd])
             z.after_init(lambda nd=nd: nd.get_gossip_event())
@@ -588,6 +595,11 @@ def _crdt():
             if kind == "w":
                 md.update(value=(1 + i % 3) if op == "increment" else f"v{i}", operation=op)
             z.at(t, nodes[i % n], "Write" if kind == "w" else "Read", {"metadata": md})
+        if c.get("manual_tick") and c["arr"]:
+            z.at(c["arr"][len(c["arr"]) // 2][0], nodes[0], "GossipTick", {"metadata": {}}, daemon=True)
+            z.probe("probe.manual_tick")
+            if c["gi"] == 0:
+                z.detail = "gossip-disabled"
         z.at_end = lambda: finish_net(z)
         z.horizon_ns = horizon(c, 2.5)
     return gen, build
